@@ -490,6 +490,13 @@ func oracleC17(r *Result) ([]Violation, bool) {
 	return s.vs, nontrivial
 }
 
+func c17OutsideDelete() *Scenario {
+	s := equalPrioTakeover(scnElect("outside-delete-takeover-equal-K1", K1, "A", "B"))
+	s.Script = append(s.Script, Item{At: 2*s.H + 53*ms, Actor: "outside", Do: "delete"})
+	s.Horizon = 2*s.H + 53*ms + 1200*ms
+	return s
+}
+
 func c17Plan(tier string) []PlanItem {
 	d := 1
 	if tier == "thorough" {
@@ -501,6 +508,9 @@ func c17Plan(tier string) []PlanItem {
 		{scnFailoverDel("failover-del3-K1", K1, "A", "B", "C"), d},
 		{scnFailoverCrash("failover-crash2-K1", K1, "A", "B"), d},
 		{scnPreempt("preempt-lowfirst-K1", K1, []InstSpec{{ID: "A", Priority: 1, Takeover: true}, {ID: "B", Priority: 2, Takeover: true}}, []string{"A", "B"}), d},
+		// equal priorities with takeover enabled, the leader's record deleted from outside:
+		// the explorer places the deletion between a failed Create and the takeover's read
+		{c17OutsideDelete(), d},
 	}
 }
 
